@@ -30,4 +30,16 @@ theorem five_end_shape :
 theorem chimera_amber :
     strandTotal (cellOf P2P.Gen.FFCharges.AMBER) ⟨str "DA", [], str "RU"⟩ = some (-9998000) := by decide +kernel
 
+def sameSetB (a b : List Str) : Bool := a.all (fun n => b.contains n) && b.all (fun n => a.contains n)
+
+/-- the run-time reference of an end nucleotide (base definition + 5TERM / 3TERM, `Biomolecule.apply_patch`) has
+the atoms of the definition `Definition.__init__` built at load time under the look-up name (DA5, RU3 …) -/
+def namedOK (b : Str) (p : Pos) : Bool :=
+  match runtimeAtoms P2P.Gen.Topology.residues P2P.Gen.Topology.patches b p, findRes P2P.Gen.Topology.residues (ffName b p) with
+  | some atoms, some d => sameSetB atoms d.names
+  | _, _ => false
+
+theorem nuc_named_all : bases.all (fun b => namedOK b .five && namedOK b .mid && namedOK b .three) = true := by
+  decide +kernel
+
 end P2P.Proofs.Nuc
